@@ -167,6 +167,7 @@ class Monitor:
 
     def reset(self):
         self.kind = None
+        self.holding = []
         self.ids = set()
 
     def atomic(self, field):
@@ -179,10 +180,16 @@ class Monitor:
             return "%s: the real code crashed / got stuck (%s)" % (line, impl)
         if w[:1] == ["threads"] and impl == "ok":
             self.kind = w[2]
+            self.holding = []
             return None
         if w[:1] == ["step"] and impl.startswith("ok "):
             f = dict(x.split("=", 1) for x in impl.split()[2:] if "=" in x)
             holds = [] if f.get("holds", "-") == "-" else f["holds"].split(",")
+            before, self.holding = self.holding, holds
+            acc = impl.split()[1]
+            if self.kind == "rspin" and w[1] in before and acc == "rd_owner" and (f.get("ret") == "false" or f.get("next") == "tas"):
+                return ("re-entrancy violated: thread %s holds the RecursiveSpinlock and its %s did not succeed"
+                        % (w[1], "try_lock()" if f.get("ret") == "false" else "lock()"))
             if len(holds) > 1:
                 return "mutual exclusion violated: threads %s are all between a successful acquire and the matching release" % ",".join(holds)
             pend = f.get("pend", "").split(",")
@@ -211,6 +218,8 @@ class Monitor:
 def violation_key(what):
     if what.startswith("mutual exclusion"):
         return "spin:mutex"
+    if what.startswith("re-entrancy"):
+        return "spin:reentrancy"
     if what.startswith("lost release"):
         return "spin:lost-release"
     if what.startswith("data race"):
@@ -253,7 +262,7 @@ def run_tsan(chk, iters, tmo=240):
         chk.nontrivial.add("tsan %d" % iters)
         return
     race = "data race" in err
-    locs = re.findall(r"(spinlock\.h|identifiable\.h|default_settable\.h):(\d+)", err)
+    locs = re.findall(r"(spinlock\.h|identifiable\.h|default_settable\.h|h_spin_tsan\.cc):(\d+)", err)
     where = ",".join(sorted({"%s:%s" % l for l in locs[:4]})) or "unknown"
     if race:
         what = "ThreadSanitizer reports a data race in the free-running program (4 threads x %d iterations) at %s" % (iters, where)
@@ -361,9 +370,16 @@ def run(chk):
                 chk.nontrivial.add(h.hexdigest()[:16])
         return impl, model
 
-    dis, judged, crashes = chk.correspond(FAMILY, HARNESS, streams, stateful=True, judge=mon, nontrivial=nontrivial,
-                                          link_lib=False, timeout=600, post=post)
-    exe = build.build_harness(HARNESS, link_lib=False)
+    hook = "PRIMITIV_VERIF_YIELD" in open(os.path.join(spinlock_decls.repo(), "primitiv", "core", "spinlock.h")).read()
+    if hook:
+        dis, judged, crashes = chk.correspond(FAMILY, HARNESS, streams, stateful=True, judge=mon, nontrivial=nontrivial,
+                                              link_lib=False, timeout=600, post=post)
+        exe = build.build_harness(HARNESS, link_lib=False)
+    else:
+        dis, judged, crashes, exe = [], [], [], None
+        chk.report("spin:hook-missing", "primitiv/core/spinlock.h has no PRIMITIV_VERIF_YIELD scheduling points "
+                   "(/verif/patches/hook-spinlock-yield.diff is not applied): the model cannot be tied to the code, nothing is shown",
+                   {"broken": "correspondence spin/h_spin", "patch": "patches/hook-spinlock-yield.diff"}, found_input=False)
 
     # 4. decisions
     if dis:
@@ -419,7 +435,7 @@ def run(chk):
     if broken:
         drf_names = [n for n in broken if n.endswith("RSpin.drf")]
         owner_plain = not decls["RecursiveSpinlock"]["atomic"].get("locked_thread_id_", False)
-        if drf_names and owner_plain:
+        if drf_names and owner_plain and exe:
             # the negation has a proved witness (Props/Findings/C19Drf.lean): replay it on the real code
             rc, log = lean.lake(["build", FINDING_MOD])
             wl = ["threads 2 rspin", "prog 0 lock", "prog 1 lock", "step 0", "step 1"]
